@@ -198,6 +198,23 @@ def c14_decode_expr(tier="quick", seed=0):
     return [ob("C14.decode-expr.execute", len(have) == 3 and aug, "K2", f"decoder statements found: {have}, ip += 2: {aug}")]
 
 
+def _template_case(job):
+    name, n, src, want = job
+    from microjs import Context
+    from microjs.errors import JSError
+    try:
+        r = Context(time_limit=60).eval(src)
+        if r != want:
+            return name, n, f"returned {r!r}, expected {want!r}"
+    except JSError as e:
+        if type(e).__name__ not in ("JSError", "JSSyntaxError") or not ("too large" in str(e).lower() or "too deep" in str(e).lower()):
+            # a JSError that does not say what is too large (incl. TimeLimitError from a mis-jump)
+            return name, n, f"{type(e).__name__}: {str(e)[:100]}"
+    except BaseException as e:  # noqa
+        return name, n, f"host exception {type(e).__name__}: {str(e)[:100]}"
+    return name, n, None
+
+
 @groups.group(id="C14.bounded.templates", prop="C14", kind="B", functions=["microjs.context:Context.eval"])
 def c14_templates(tier="quick", seed=0):
     """shape templates swept across the encoding boundaries: closed-form result or an up-front JSError"""
@@ -217,29 +234,35 @@ def c14_templates(tier="quick", seed=0):
         "object-literal": (lambda n: "var o={" + ",".join(f"k{i}:{i}" for i in range(n)) + "}; o.k" + str(n - 1), lambda n: n - 1),
         "try-long": (lambda n: "var s=0; try {" + "s=s+1;" * n + "} catch(e) { s=-1 } s", lambda n: n),
     }
-    out = []
-    cases = 0
+    # the same size sweep for an expression wherever an expression can be compiled: size alone must never surface as a host
+    # error, whichever compile path (program, declaration hoisting, nested functions, arrows, methods, accessors) meets it
+    PLACES = {"top": "{E}", "decl": "function f(){ return {E} } f()", "decl-used-before": "var r = f(); function f(){ return {E} } r",
+              "nested-decl": "function g(){ function f(){ return {E} } return f() } g()", "funcexpr": "(function(){ return {E} })()", "arrow": "(() => {E})()",
+              "arrow-block": "(() => { return {E} })()", "method": "({m: function(){ return {E} }}).m()", "getter": "({get g(){ return {E} }}).g",
+              "callback": "[0].map(function(){ return {E} })[0]", "ctor": "new (function(){ this.v = {E} })().v", "in-try": "function f(){ try { return {E} } finally { } } f()",
+              "in-loop": "function f(){ for (var i = 0; i < 1; i++) { return {E} } } f()", "default-in-switch": "function f(){ switch (1) { default: return {E} } } f()"}
+    for pname, ptxt in PLACES.items():
+        T[f"sum@{pname}"] = ((lambda n, ptxt=ptxt: ptxt.replace("{E}", "+".join(["1"] * n))), (lambda n: n))
+        T[f"concat@{pname}"] = ((lambda n, ptxt=ptxt: ptxt.replace("{E}", "('a'" + "+'a'" * (n - 1) + ").length")), (lambda n: n))
+        T[f"nest@{pname}"] = ((lambda n, ptxt=ptxt: ptxt.replace("{E}", "(" * min(n, 3000) + "1" + ")" * min(n, 3000))), (lambda n: 1))
+    import multiprocessing as mp
+    jobs = []
     for name, (mk, expect) in T.items():
-        bad = None
         for n in ns:
-            if n > 1000 and name in ("distinct-globals", "call-args", "func-locals", "object-literal", "array-literal", "switch-cases", "distinct-consts") and n > 5000:
+            if n > 5000 and name in ("distinct-globals", "call-args", "func-locals", "object-literal", "array-literal", "switch-cases", "distinct-consts"):
                 continue
-            src = mk(n)
-            cases += 1
-            try:
-                r = Context(time_limit=20).eval(src)
-                if r != expect(n):
-                    bad = (n, f"returned {r!r}, expected {expect(n)!r}")
-                    break
-            except JSError as e:
-                if type(e).__name__ not in ("JSError", "JSSyntaxError") or "too large" not in str(e).lower():
-                    # a JSError that does not say what is too large (incl. TimeLimitError from a mis-jump)
-                    bad = (n, f"{type(e).__name__}: {str(e)[:100]}")
-                    break
-            except Exception as e:  # noqa
-                bad = (n, f"host exception {type(e).__name__}: {str(e)[:100]}")
-                break
+            if "@" in name and n not in (1, 2, 300, 1000, 5000, 22000):
+                continue
+            if "@" in name and n > 5000 and tier == "quick" and not name.startswith("sum@"):
+                continue
+            jobs.append((name, n, mk(n), expect(n)))
+    with mp.get_context("fork").Pool(16) as pool:
+        res = pool.map(_template_case, jobs, chunksize=4)
+    out = []
+    for name in T:
+        mine = [(n, why) for (nm, n, why) in res if nm == name]
+        bad = next(((n, why) for n, why in mine if why is not None), None)
         out.append(ob(f"C14.bounded.templates.{name}", bad is None, "B",
                       "ok" if bad is None else f"n={bad[0]}: {bad[1]}", witness=(f"template {name} with n={bad[0]}" if bad else None),
-                      confirmed=True if bad else None, domain=len(ns), key=f"C14.bounded.templates.{name}"))
+                      confirmed=True if bad else None, domain=len(mine), key=f"C14.bounded.templates.{name}"))
     return out
